@@ -10,7 +10,13 @@ samples in their own bases. Each metric returns a plain real number on every cod
 
 Model definitions: QV.Model.Metrics (executed against qucumber.utils.training_statistics by the C10
 correspondence check), QV.Model.Unitaries (rotations; C04 proves they are the dense Kronecker rotation and
-preserve norms — used here only through explicit hypotheses).
+preserve norms — composed with the C10 statements in §7: `C10_pureBorn_dense`, `C10_mixedBorn_dense`,
+`C10_nll_born[_mixed]`, `C10_pureBorn_sum`, `C10_mixedBorn_sum`, and the RBM instances `C10_kl_nonneg_rbm`, …).
+
+KL guard (§2): the MODEL's Born probabilities must lie in `[ε, 1−ε]` (`InGuard`; the clamp of `probs_to_logits` is then
+inactive). The TARGET's may in addition be exactly `0` (`TGuard`: value = Kullback–Leibler divergence) or exactly `0` / `1`
+(`TGuard1`: non-negativity; value = divergence + `oneCorr`, `|oneCorr| ≤ 2ε`): basis states, GHZ, W, product states,
+rank-deficient density matrices are inside.
 
 Scope of the theorems (all sizes `N`, `n`, all real parameters, all targets, all lists of bases/samples):
 * the neural state enters through `psi`/`rho`/`prob`/`Z`; the facts C01/C02 prove about them
@@ -1223,6 +1229,425 @@ theorem C10_kl_self_zero_rbm (ε : ℝ) (d : Char → M2 ℝ) (am ph : RBM ℝ n
   intro k; rfl
 
 end rbm
+
+/-! ## 7. Composition with C04 (the model's rotations ARE the dense Kronecker rotation) and C02 -/
+
+section compose
+open Matrix
+open scoped ComplexOrder
+variable {n : ℕ}
+
+/-- SPECIFICATION (not the code). Born distribution of the pure state `ψ` (any norm) measured in the product basis with
+per-site unitaries `us`: `|(U ψ)(σ)|²`, `U = ⊗_j us_j` the dense Kronecker operator of C04 (`denseK`, site 0 leftmost). -/
+noncomputable def bornPure (us : Fin n → M2 ℝ) (ψ : (Fin n → Bool) → ℂ) (σ : Fin n → Bool) : ℝ :=
+  Complex.normSq ((denseK us).mulVec ψ σ)
+
+/-- SPECIFICATION. Born distribution of the density matrix `ρ` in that basis: `Re (U ρ U†)(σ,σ)`. -/
+noncomputable def bornMixed (us : Fin n → M2 ℝ) (ρ : Matrix (Fin n → Bool) (Fin n → Bool) ℂ) (σ : Fin n → Bool) : ℝ :=
+  ((denseK us * ρ * (denseK us)ᴴ) σ σ).re
+
+/-- the two decodings of a real pair agree -/
+theorem toC_eq (z : C ℝ) : C10L.toC z = QV.toC z := rfl
+
+/-- `_convert_basis_element_to_index` inverts `generate_hilbert_space` the other way round too -/
+theorem basisIndex_row (k : ℕ) (hk : k < 2 ^ n) : basisIndex (row n k) = k := by
+  have h1 : (List.finRange n).map (row n k) = maskRow n k := (maskRow_eq_map_spaceBit n k).symm
+  unfold basisIndex
+  rw [h1, basisIndexL_maskRow, Nat.mod_eq_of_lt hk]
+
+/-- **KL's Born distributions are the dense ones (wavefunction).** Entry `basisIndex σ` of the model's `pureBorn`
+(the `_kron_mult` sweep) is `|(U v)(σ)|²` — for EVERY dictionary, basis and vector (C04_rotate_psi). -/
+theorem C10_pureBorn_dense (d : Char → M2 ℝ) (b : Basis n) (v : ℕ → C ℝ) (σ : Fin n → Bool) :
+    pureBorn n d b v (basisIndex σ) = bornPure (usOf d b) (fun τ => C10L.toC (v (basisIndex τ))) σ := by
+  have hp : psiVec (n := n) v = fun τ => C10L.toC (v (basisIndex τ)) := by
+    funext τ; simp only [psiVec, C04_index_convention]; rfl
+  have h := congrFun (C04_rotate_psi (usOf d b) v) σ
+  rw [hp] at h
+  simp only [psiVec, ← C04_index_convention] at h
+  unfold pureBorn bornPure
+  rw [toC_eq, h]
+
+/-- the same at position `k` of the generated Hilbert space -/
+theorem C10_pureBorn_dense_row (d : Char → M2 ℝ) (b : Basis n) (v : ℕ → C ℝ) (k : ℕ) (hk : k < 2 ^ n) :
+    pureBorn n d b v k = bornPure (usOf d b) (fun τ => C10L.toC (v (basisIndex τ))) (row n k) := by
+  rw [← C10_pureBorn_dense, basisIndex_row k hk]
+
+/-- a dictionary whose `Z` entry is the identity: every non-rotated site of every basis carries the identity -/
+theorem usOf_Z (d : Char → M2 ℝ) (hZ : m2c (d 'Z') = 1) (b : Basis n) :
+    ∀ j, rotOf b j = false → m2c (usOf d b j) = 1 := by
+  intro j hj
+  have : b.get j = 'Z' := by simpa [rotOf] using hj
+  simp only [usOf, this, hZ]
+
+/-- **KL's / NLL's Born distributions are the dense ones (density matrix)**: entry `basisIndex σ` of `mixedBorn`
+(`rotate_rho_probs`) is `Re (U ρ U†)(σ,σ)` whenever the dictionary's `Z` is the identity (C04_rho_probs_dense). -/
+theorem C10_mixedBorn_dense (d : Char → M2 ℝ) (hZ : m2c (d 'Z') = 1) (b : Basis n)
+    (ρ : (Fin n → Bool) → (Fin n → Bool) → C ℝ) (σ : Fin n → Bool) :
+    mixedBorn n d b ρ (basisIndex σ) = bornMixed (usOf d b) (Matrix.of fun a c => C10L.toC (ρ a c)) σ := by
+  unfold mixedBorn bornMixed
+  rw [row_basisIndex, C04_rho_probs_dense _ _ _ _ (usOf_Z d hZ b)]
+  rfl
+
+theorem fastK_one (us : Fin n → M2 ℝ) (rot : Fin n → Bool) (h : ∀ j, rot j = false) : fastK us rot = 1 := by
+  funext σ τ
+  unfold fastK
+  simp only [h, Bool.false_eq_true, if_false, Matrix.one_apply]
+  by_cases e : σ = τ
+  · subst e; simp
+  · rw [if_neg e]
+    obtain ⟨j, hj⟩ := Function.ne_iff.mp e
+    exact Finset.prod_eq_zero (mem_univ j) (by simp [hj])
+
+theorem anyRot_false {b : Basis n} (h : anyRot b = false) : ∀ j, rotOf b j = false := by
+  intro j
+  have := List.any_eq_false.mp h j (List.mem_finRange j)
+  simpa using this
+
+/-- **C10.3 (NLL ↔ Born, wavefunction).** The probability `NLL` assigns to sample `σ` measured in basis `b` is the entry at
+`σ` of the very Born distribution `KL` uses for that basis (`pureBorn … / Z`), i.e. `|(U_b ψ)(σ)|² / Z` with the dense
+Kronecker `U_b` — on rotated rows (`rotate_psi_inner_prod`, C04_inner_prod_dense) and on all-`Z` rows
+(`probability(σ, Z)`, Born rule of the state `hborn`: C01). Needs the dictionary's `Z` to be the identity. -/
+theorem C10_nll_born (d : Char → M2 ℝ) (hZ : m2c (d 'Z') = 1) (psi : (Fin n → Bool) → C ℝ)
+    (prob : (Fin n → Bool) → ℝ) (Z : ℝ) (hborn : ∀ σ, prob σ = ((psi σ).1 ^ 2 + (psi σ).2 ^ 2) / Z)
+    (b : Basis n) (σ : Fin n → Bool) :
+    sampleProbPure n d psi prob Z b σ = pureBorn n d b (vecOf n psi) (basisIndex σ) / Z
+    ∧ sampleProbPure n d psi prob Z b σ = bornPure (usOf d b) (fun τ => C10L.toC (psi τ)) σ / Z := by
+  have hv : (fun τ : Fin n → Bool => C10L.toC (vecOf n psi (basisIndex τ))) = fun τ => C10L.toC (psi τ) := by
+    funext τ; simp only [vecOf, row_basisIndex]
+  have h2 : sampleProbPure n d psi prob Z b σ = bornPure (usOf d b) (fun τ => C10L.toC (psi τ)) σ / Z := by
+    unfold sampleProbPure bornPure
+    have hd := C04_inner_prod_dense (usOf d b) (rotOf b) psi σ (usOf_Z d hZ b)
+    by_cases hr : anyRot b = true
+    · rw [if_pos hr, absSq_eq, toC_eq, hd]; rfl
+    · rw [if_neg hr, hborn, ← normSq_toC]
+      have hone : denseK (usOf d b) = 1 := by
+        rw [← C04_fastK_eq_dense _ _ (usOf_Z d hZ b)]
+        exact fastK_one _ _ (anyRot_false (by simpa using hr))
+      rw [hone, Matrix.one_mulVec]
+  refine ⟨?_, h2⟩
+  rw [h2, C10_pureBorn_dense, hv]
+
+/-- **C10.3 (NLL ↔ Born, density matrix)**: `rotate_rho_probs(σ)/Z` resp. `probability(σ, Z) = Re ρ(σ,σ)/Z`
+(C02_diagonal) is the entry at `σ` of `mixedBorn … / Z`, i.e. `Re (U_b ρ U_b†)(σ,σ) / Z`. -/
+theorem C10_nll_born_mixed (d : Char → M2 ℝ) (hZ : m2c (d 'Z') = 1) (rho : (Fin n → Bool) → (Fin n → Bool) → C ℝ)
+    (prob : (Fin n → Bool) → ℝ) (Z : ℝ) (hdiag : ∀ σ, prob σ = (rho σ σ).1 / Z)
+    (b : Basis n) (σ : Fin n → Bool) :
+    sampleProbMixed n d rho prob Z b σ = mixedBorn n d b rho (basisIndex σ) / Z
+    ∧ sampleProbMixed n d rho prob Z b σ = bornMixed (usOf d b) (Matrix.of fun a c => C10L.toC (rho a c)) σ / Z := by
+  have h1 : sampleProbMixed n d rho prob Z b σ = mixedBorn n d b rho (basisIndex σ) / Z := by
+    unfold sampleProbMixed mixedBorn
+    rw [row_basisIndex]
+    by_cases hr : anyRot b = true
+    · rw [if_pos hr]
+    · rw [if_neg hr, hdiag, C04_rho_probs, fastK_one _ _ (anyRot_false (by simpa using hr))]
+      simp
+  exact ⟨h1, by rw [h1, C10_mixedBorn_dense d hZ]⟩
+
+/-- **C10.3a restated with the Born distributions (wavefunction).** `NLL` with per-sample bases is minus the mean over the
+samples of `log clamp_ε(P_β(σ))`, `P_β(σ) = |(U_β ψ)(σ)|²/Z` the Born probability of the sample in ITS OWN basis — the
+same distribution `KL` compares with the target. The clamp stays in the statement: below `ε` (above `1−ε`) the summand is
+`log ε` (`log(1−ε)`), not the log Born probability. -/
+theorem C10_nll_formula_born (ε : ℝ) (d : Char → M2 ℝ) (hZ : m2c (d 'Z') = 1) (psi : (Fin n → Bool) → C ℝ)
+    (prob : (Fin n → Bool) → ℝ) (Z : ℝ) (hborn : ∀ σ, prob σ = ((psi σ).1 ^ 2 + (psi σ).2 ^ 2) / Z)
+    (samples : List (Fin n → Bool)) (bs : List (Basis n))
+    (hlen : bs.length = samples.length) (hne : samples ≠ []) :
+    nllPure ε n (some d) psi prob Z samples (some bs)
+      = .ok ⟨.pyfloat, -(((bs.zip samples).map (fun s =>
+          Real.log (clampProbs ε (bornPure (usOf d s.1) (fun τ => C10L.toC (psi τ)) s.2 / Z)))).sum) / samples.length⟩ := by
+  rw [C10_nll_formula ε n d psi prob Z samples bs hlen hne]
+  simp only [(C10_nll_born d hZ psi prob Z hborn _ _).2]
+
+/-- **C10.3a restated with the Born distributions (density matrix).** -/
+theorem C10_nll_formula_born_mixed (ε : ℝ) (d : Char → M2 ℝ) (hZ : m2c (d 'Z') = 1)
+    (rho : (Fin n → Bool) → (Fin n → Bool) → C ℝ)
+    (prob : (Fin n → Bool) → ℝ) (Z : ℝ) (hdiag : ∀ σ, prob σ = (rho σ σ).1 / Z)
+    (samples : List (Fin n → Bool)) (bs : List (Basis n))
+    (hlen : bs.length = samples.length) (hne : samples ≠ []) :
+    nllMixed ε n d rho prob Z samples (some bs)
+      = .ok ⟨.pyfloat, -(((bs.zip samples).map (fun s =>
+          Real.log (clampProbs ε (bornMixed (usOf d s.1) (Matrix.of fun a c => C10L.toC (rho a c)) s.2 / Z)))).sum)
+            / samples.length⟩ := by
+  rw [C10_nll_formula_mixed ε n d rho prob Z samples bs hlen hne]
+  simp only [(C10_nll_born_mixed d hZ rho prob Z hdiag _ _).2]
+
+/-! ### normalisation of the Born distributions (C04 unitarity), the default dictionary -/
+
+/-- `create_dict()`: `Z` is the identity … -/
+theorem C10_defaultDict_Z : m2c (defaultDict (α := ℝ) 'Z') = 1 := by
+  have : defaultDict (α := ℝ) 'Z' = Unitaries.dZ := by simp [defaultDict]
+  rw [this, C04_dZ]
+
+/-- … and every entry is unitary (C04_dX_unitary, C04_dY_unitary, C04_dZ) -/
+theorem C10_defaultDict_unitary (c : Char) : (m2c (defaultDict (α := ℝ) c))ᴴ * m2c (defaultDict c) = 1 := by
+  unfold defaultDict
+  split_ifs
+  · exact C04_dX_unitary
+  · exact C04_dY_unitary
+  · rw [C04_dZ]; simp
+
+/-- the Born probabilities of a vector sum to its squared norm in every basis of a unitary dictionary (C04_psi_probs_sum) -/
+theorem C10_pureBorn_sum (d : Char → M2 ℝ) (hU : ∀ c, (m2c (d c))ᴴ * m2c (d c) = 1) (b : Basis n) (v : ℕ → C ℝ) :
+    ∑ k : Fin (2 ^ n), pureBorn n d b v k.val = normSqVec (2 ^ n) v := by
+  have h := C04_psi_probs_sum (usOf d b) (fun j => hU _) v
+  rw [← sum_rows n, ← sum_rows n] at h
+  unfold normSqVec pureBorn
+  have hidx : ∀ k : Fin (2 ^ n), idxOf (rowBits n k.val) = k.val := by
+    intro k
+    rw [← C04_index_convention]
+    exact basisIndex_row k.val k.isLt
+  simp only [psiVec, hidx] at h
+  exact h
+
+/-- the Born probabilities of a matrix sum to the real part of its trace in every basis of a unitary dictionary with
+`Z ↦ 1` (C04_rho_probs_dense, C04_rho_probs_sum, C04_dense_unitary) -/
+theorem C10_mixedBorn_sum (d : Char → M2 ℝ) (hU : ∀ c, (m2c (d c))ᴴ * m2c (d c) = 1) (hZ : m2c (d 'Z') = 1)
+    (b : Basis n) (ρ : (Fin n → Bool) → (Fin n → Bool) → C ℝ) :
+    ∑ k : Fin (2 ^ n), mixedBorn n d b ρ k.val = ∑ k : Fin (2 ^ n), (ρ (row n k.val) (row n k.val)).1 := by
+  have hK := C04_dense_unitary (usOf d b) (fun j => hU _)
+  have hs := C04_rho_probs_sum (denseK (usOf d b)) (Matrix.of fun a c => QV.toC (ρ a c)) hK
+  have h1 : ∀ k : Fin (2 ^ n), mixedBorn n d b ρ k.val
+      = ((denseK (usOf d b) * (Matrix.of fun a c => QV.toC (ρ a c)) * (denseK (usOf d b))ᴴ) (rowBits n k.val) (rowBits n k.val)).re := by
+    intro k
+    unfold mixedBorn
+    rw [C04_rho_probs_dense _ _ _ _ (usOf_Z d hZ b)]
+    rfl
+  simp_rw [h1]
+  rw [sum_rows n (fun σ => ((denseK (usOf d b) * (Matrix.of fun a c => QV.toC (ρ a c)) * (denseK (usOf d b))ᴴ) σ σ).re),
+    ← Complex.re_sum, hs, Matrix.trace, Complex.re_sum, ← sum_rows n]
+  rfl
+
+/-! ### C10-4: the normalisation / PSD / trace hypotheses discharged for the RBM states the driver runs -/
+
+section rbm2
+variable {h a : ℕ}
+
+theorem C10_rbm_prob_sum (am ph : RBM ℝ n h) : ∑ k : Fin (2 ^ n), rbmProb am (row n k.val) = 1 := by
+  have hZ := C10_rbm_Z_pos am
+  simp_rw [C10_rbm_born am ph, ← normSq_toC]
+  rw [← Finset.sum_div]
+  have := C10_rbm_Z_eq am ph
+  unfold normSqVec vecOf at this
+  rw [← this, div_self hZ.ne']
+
+/-- **C10.2b for the complex RBM wavefunction, every unitary dictionary, every non-empty list of bases, every normalised
+target — normalisation hypotheses discharged** (C04_psi_probs_sum for both Born distributions, C01 for `Z = ‖ψ‖² > 0`).
+What remains is the clamp guard: model probabilities in `[ε, 1−ε]`, target probabilities `0`, `1` or in `[ε, 1−ε]`. -/
+theorem C10_kl_nonneg_rbm (ε : ℝ) (hε : 0 < ε) (d : Char → M2 ℝ) (hU : ∀ c, (m2c (d c))ᴴ * m2c (d c) = 1)
+    (am ph : RBM ℝ n h) (t : ℕ → C ℝ) (ht : normSqVec (2 ^ n) t = 1) (b : Basis n) (bs : List (Basis n))
+    (hguard : ∀ b' ∈ b :: bs, TGuard1 ε (2 ^ n) (pureBorn n d b' t)
+        ∧ InGuard ε (2 ^ n) (fun k => pureBorn n d b' (vecOf n (rbmPsi am ph)) k / rbmZ am)) :
+    ∃ v, klPure ε n (some d) (rbmPsi am ph) (rbmProb am) (rbmZ am) (.once t) (some (b :: bs)) = .ok ⟨.pyfloat, v⟩
+      ∧ 0 ≤ v := by
+  refine C10_kl_nonneg ε hε n d _ _ _ _ _ _ (C10_kl_resolve_once _ _) (by simp) ?_ ?_
+  · intro it hit
+    obtain ⟨b', hb', rfl⟩ := List.mem_map.mp hit
+    exact hguard b' hb'
+  · intro it hit
+    obtain ⟨b', _, rfl⟩ := List.mem_map.mp hit
+    refine ⟨?_, ?_⟩
+    · show ∑ k : Fin (2 ^ n), pureBorn n d b' t k.val = 1
+      rw [C10_pureBorn_sum d hU, ht]
+    · show ∑ k : Fin (2 ^ n), pureBorn n d b' (vecOf n (rbmPsi am ph)) k.val / rbmZ am = 1
+      rw [← Finset.sum_div, C10_pureBorn_sum d hU, ← C10_rbm_Z_eq am ph, div_self (C10_rbm_Z_pos am).ne']
+
+/-- the same for the positive RBM wavefunction, which rotates with the DEFAULT dictionary (`dict = none`, F10 fix) -/
+theorem C10_kl_nonneg_rbm_pos (ε : ℝ) (hε : 0 < ε) (am : RBM ℝ n h) (t : ℕ → C ℝ) (ht : normSqVec (2 ^ n) t = 1)
+    (b : Basis n) (bs : List (Basis n))
+    (hguard : ∀ b' ∈ b :: bs, TGuard1 ε (2 ^ n) (pureBorn n defaultDict b' t)
+        ∧ InGuard ε (2 ^ n) (fun k => pureBorn n defaultDict b' (vecOf n (rbmPsiPos am)) k / rbmZ am)) :
+    ∃ v, klPure ε n none (rbmPsiPos am) (rbmProb am) (rbmZ am) (.once t) (some (b :: bs)) = .ok ⟨.pyfloat, v⟩
+      ∧ 0 ≤ v := by
+  rw [(C10_pos_default_dict ε n (rbmPsiPos am) (rbmProb am) (rbmZ am)).1]
+  refine C10_kl_nonneg ε hε n defaultDict _ _ _ _ _ _ (C10_kl_resolve_once _ _) (by simp) ?_ ?_
+  · intro it hit
+    obtain ⟨b', hb', rfl⟩ := List.mem_map.mp hit
+    exact hguard b' hb'
+  · intro it hit
+    obtain ⟨b', _, rfl⟩ := List.mem_map.mp hit
+    refine ⟨?_, ?_⟩
+    · show ∑ k : Fin (2 ^ n), pureBorn n defaultDict b' t k.val = 1
+      rw [C10_pureBorn_sum _ C10_defaultDict_unitary, ht]
+    · show ∑ k : Fin (2 ^ n), pureBorn n defaultDict b' (vecOf n (rbmPsiPos am)) k.val / rbmZ am = 1
+      rw [← Finset.sum_div, C10_pureBorn_sum _ C10_defaultDict_unitary, ← C10_rbm_Z_eq_pos am,
+        div_self (C10_rbm_Z_pos am).ne']
+
+/-- **C10.2b, `bases=None`, RBM wavefunctions** (`Σ probability(σ, Z) = 1` by C01) -/
+theorem C10_kl_nonneg_none_rbm (ε : ℝ) (hε : 0 < ε) (dd : Option (Char → M2 ℝ)) (am ph : RBM ℝ n h) (t : ℕ → C ℝ)
+    (ht : normSqVec (2 ^ n) t = 1)
+    (hg1 : TGuard1 ε (2 ^ n) (fun k => Complex.normSq (C10L.toC (t k))))
+    (hg2 : InGuard ε (2 ^ n) (fun k => rbmProb am (row n k))) :
+    ∃ v, klPure ε n dd (rbmPsi am ph) (rbmProb am) (rbmZ am) (.once t) none = .ok ⟨.pyfloat, v⟩ ∧ 0 ≤ v :=
+  C10_kl_nonneg_none ε hε n dd _ _ _ t hg1 hg2 ⟨ht, C10_rbm_prob_sum am ph⟩
+
+/-! #### the density-matrix RBM -/
+
+/-- the density matrix, its normalisation and probability exactly as `DriverLib.C10` hands them to the metrics -/
+noncomputable def rbmRho (am ph : PRBM ℝ n h a) : (Fin n → Bool) → (Fin n → Bool) → C ℝ :=
+  fun σ τ => Density.rho am ph (fun j => bit (σ j)) (fun j => bit (τ j))
+noncomputable def rbmZd (am : PRBM ℝ n h a) : ℝ :=
+  Density.normalization am (fun k : Fin (2 ^ n) => (spaceRow n k.val : Fin n → ℝ))
+noncomputable def rbmProbD (am : PRBM ℝ n h a) : (Fin n → Bool) → ℝ :=
+  fun σ => Density.probability am (fun j => bit (σ j)) (rbmZd am)
+/-- `rho(space, space)` as the fidelity branch indexes it -/
+noncomputable def rbmRhoIdx (am ph : PRBM ℝ n h a) : ℕ → ℕ → C ℝ := fun k l => rbmRho am ph (row n k) (row n l)
+
+theorem C10_rbm_Zd_pos (am : PRBM ℝ n h a) : 0 < rbmZd am := C02.C02_normalization_pos am
+
+/-- `probability(σ, Z) = Re ρ(σ,σ) / Z` (C02_diagonal) -/
+theorem C10_rbm_diag (am ph : PRBM ℝ n h a) (σ : Fin n → Bool) :
+    rbmProbD am σ = (rbmRho am ph σ σ).1 / rbmZd am := by
+  unfold rbmProbD rbmRho
+  rw [(C02.C02_diagonal am ph _).2]
+  simp [Density.probability]
+
+/-- the diagonal of `ρ` sums to `Z` (C02_trace) -/
+theorem C10_rbm_trace (am ph : PRBM ℝ n h a) :
+    ∑ k : Fin (2 ^ n), (rbmRho am ph (row n k.val) (row n k.val)).1 = rbmZd am :=
+  (C02.C02_trace am ph).1
+
+/-- the matrix `ρ/Z` the fidelity branch builds is `Z⁻¹ •` the matrix of C02 -/
+theorem C10_rbm_matC (am ph : PRBM ℝ n h a) :
+    matC (2 ^ n) (fun i j => ((rbmRhoIdx am ph i j).1 / rbmZd am, (rbmRhoIdx am ph i j).2 / rbmZd am))
+      = (((rbmZd am)⁻¹ : ℝ) : ℂ) • C02.rhoFullC am ph := by
+  ext i j
+  simp only [matC, Matrix.of_apply, Matrix.smul_apply, smul_eq_mul]
+  rw [smul_eq_div, C10L.toC_smul]
+  rfl
+
+/-- under the NZ guard of C02, `ρ/Z` is positive semidefinite with trace one (C02_posSemidef, C02_trace_matrix) -/
+theorem C10_rbm_state (am ph : PRBM ℝ n h a)
+    (hz : ∀ σ τ : Fin n → Bool, C02.NZ am ph (C02.bits σ) (C02.bits τ)) :
+    (matC (2 ^ n) (fun i j => ((rbmRhoIdx am ph i j).1 / rbmZd am, (rbmRhoIdx am ph i j).2 / rbmZd am))).PosSemidef
+    ∧ (matC (2 ^ n) (fun i j => ((rbmRhoIdx am ph i j).1 / rbmZd am, (rbmRhoIdx am ph i j).2 / rbmZd am))).trace = 1 := by
+  rw [C10_rbm_matC]
+  have hZ := C10_rbm_Zd_pos am
+  constructor
+  · refine (C02.C02_posSemidef am ph hz).smul ?_
+    exact_mod_cast (inv_pos.mpr hZ).le
+  · rw [Matrix.trace_smul, C02.C02_trace_matrix, smul_eq_mul, ← Complex.ofReal_mul]
+    show (((rbmZd am)⁻¹ * rbmZd am : ℝ) : ℂ) = 1
+    rw [inv_mul_cancel₀ hZ.ne']; simp
+
+/-- **C10.5 for the density-matrix RBM, own state (C10-4).** Under C02's NZ guard (e.g. `Σ_j |U_μ k j| < 2π`,
+C02_NZ_of_phase_weights_small), the fidelity of the model against its own normalised density matrix is exactly 1 —
+`hpsd`/`htr` of `C10_fid_mixed_self` discharged; only the `eigvals` hypothesis is left. -/
+theorem C10_fid_mixed_self_rbm (am ph : PRBM ℝ n h a)
+    (hz : ∀ σ τ : Fin n → Bool, C02.NZ am ph (C02.bits σ) (C02.bits τ)) (eig : List (C ℝ))
+    (heig : ((eig.map C10L.toC : List ℂ) : Multiset ℂ)
+      = (matC (2 ^ n) (fidProd (2 ^ n)
+          (fun i j => ((rbmRhoIdx am ph i j).1 / rbmZd am, (rbmRhoIdx am ph i j).2 / rbmZd am))
+          (rbmRhoIdx am ph) (rbmZd am))).charpoly.roots) :
+    fidelityMixed eig = 1 :=
+  C10_fid_mixed_self (2 ^ n) (rbmRhoIdx am ph) (rbmZd am) (C10_rbm_state am ph hz).1 (C10_rbm_state am ph hz).2 eig heig
+
+/-- **C10.5 for the density-matrix RBM, any target state**: against every PSD trace-one target the returned value is the
+squared Uhlmann fidelity of target and `ρ/Z`, and lies in `[0,1]`. -/
+theorem C10_fid_mixed_rbm (am ph : PRBM ℝ n h a)
+    (hz : ∀ σ τ : Fin n → Bool, C02.NZ am ph (C02.bits σ) (C02.bits τ))
+    (T : ℕ → ℕ → C ℝ) (hT : (matC (2 ^ n) T).PosSemidef) (hT1 : (matC (2 ^ n) T).trace = 1) (eig : List (C ℝ))
+    (heig : ((eig.map C10L.toC : List ℂ) : Multiset ℂ)
+      = (matC (2 ^ n) (fidProd (2 ^ n) T (rbmRhoIdx am ph) (rbmZd am))).charpoly.roots) :
+    fidelityMixed eig = (uhlmannTr (matC (2 ^ n) T)
+        (matC (2 ^ n) (fun i j => ((rbmRhoIdx am ph i j).1 / rbmZd am, (rbmRhoIdx am ph i j).2 / rbmZd am)))).re ^ 2
+    ∧ 0 ≤ fidelityMixed eig ∧ fidelityMixed eig ≤ 1 := by
+  have h := C10_fid_mixed_uhlmann_model (2 ^ n) T (rbmRhoIdx am ph) (rbmZd am) hT (C10_rbm_state am ph hz).1 eig heig
+  exact ⟨h.1, h.2 hT1 (C10_rbm_state am ph hz).2⟩
+
+/-- **C10.2b for the density-matrix RBM** (no NZ guard needed): every unitary dictionary with `Z ↦ 1`, every non-empty
+list of bases, every target matrix with unit real trace — normalisation of both Born distributions discharged
+(C04_rho_probs_sum, C04_dense_unitary, C02_trace). -/
+theorem C10_kl_nonneg_mixed_rbm (ε : ℝ) (hε : 0 < ε) (d : Char → M2 ℝ) (hU : ∀ c, (m2c (d c))ᴴ * m2c (d c) = 1)
+    (hZ : m2c (d 'Z') = 1) (am ph : PRBM ℝ n h a) (T : ℕ → ℕ → C ℝ)
+    (hT1 : ∑ k : Fin (2 ^ n), (T k.val k.val).1 = 1) (b : Basis n) (bs : List (Basis n))
+    (hguard : ∀ b' ∈ b :: bs, TGuard1 ε (2 ^ n) (mixedBorn n d b' (matAt n T))
+        ∧ InGuard ε (2 ^ n) (fun k => mixedBorn n d b' (rbmRho am ph) k / rbmZd am)) :
+    ∃ v, klMixed ε n d (rbmRho am ph) (rbmProbD am) (rbmZd am) (.once T) (some (b :: bs)) = .ok ⟨.pyfloat, v⟩
+      ∧ 0 ≤ v := by
+  refine C10_kl_nonneg_mixed ε hε n d _ _ _ _ _ _ (C10_kl_resolve_once _ _) (by simp) ?_ ?_
+  · intro it hit
+    obtain ⟨b', hb', rfl⟩ := List.mem_map.mp hit
+    exact hguard b' hb'
+  · intro it hit
+    obtain ⟨b', _, rfl⟩ := List.mem_map.mp hit
+    refine ⟨?_, ?_⟩
+    · show ∑ k : Fin (2 ^ n), mixedBorn n d b' (matAt n T) k.val = 1
+      rw [C10_mixedBorn_sum d hU hZ, ← hT1]
+      refine Finset.sum_congr rfl (fun k _ => ?_)
+      simp only [matAt, basisIndex_row k.val k.isLt]
+    · show ∑ k : Fin (2 ^ n), mixedBorn n d b' (rbmRho am ph) k.val / rbmZd am = 1
+      rw [← Finset.sum_div, C10_mixedBorn_sum d hU hZ, C10_rbm_trace, div_self (C10_rbm_Zd_pos am).ne']
+
+/-- **C10.2b, `bases=None`, density-matrix RBM** -/
+theorem C10_kl_nonneg_mixed_none_rbm (ε : ℝ) (hε : 0 < ε) (d : Char → M2 ℝ) (am ph : PRBM ℝ n h a) (T : ℕ → ℕ → C ℝ)
+    (hT1 : ∑ k : Fin (2 ^ n), (T k.val k.val).1 = 1)
+    (hg1 : TGuard1 ε (2 ^ n) (fun k => (T k k).1)) (hg2 : InGuard ε (2 ^ n) (fun k => rbmProbD am (row n k))) :
+    ∃ v, klMixed ε n d (rbmRho am ph) (rbmProbD am) (rbmZd am) (.once T) none = .ok ⟨.pyfloat, v⟩ ∧ 0 ≤ v := by
+  refine C10_kl_nonneg_mixed_none ε hε n d _ _ _ T hg1 hg2 ⟨hT1, ?_⟩
+  simp_rw [C10_rbm_diag am ph]
+  rw [← Finset.sum_div, C10_rbm_trace, div_self (C10_rbm_Zd_pos am).ne']
+
+/-- **C10.3 for the RBM states**: the hypotheses of `C10_nll_formula_born[_mixed]` (Born rule / diagonal, `Z ↦ 1`) hold for
+the states and the default dictionary the driver runs. -/
+theorem C10_nll_born_rbm (ε : ℝ) (am ph : RBM ℝ n h) (samples : List (Fin n → Bool)) (bs : List (Basis n))
+    (hlen : bs.length = samples.length) (hne : samples ≠ []) :
+    nllPure ε n (some defaultDict) (rbmPsi am ph) (rbmProb am) (rbmZ am) samples (some bs)
+      = .ok ⟨.pyfloat, -(((bs.zip samples).map (fun s => Real.log (clampProbs ε
+          (bornPure (usOf defaultDict s.1) (fun τ => C10L.toC (rbmPsi am ph τ)) s.2 / rbmZ am)))).sum) / samples.length⟩ :=
+  C10_nll_formula_born ε defaultDict C10_defaultDict_Z _ _ _ (C10_rbm_born am ph) samples bs hlen hne
+
+theorem C10_nll_born_rbm_mixed (ε : ℝ) (am ph : PRBM ℝ n h a) (samples : List (Fin n → Bool)) (bs : List (Basis n))
+    (hlen : bs.length = samples.length) (hne : samples ≠ []) :
+    nllMixed ε n defaultDict (rbmRho am ph) (rbmProbD am) (rbmZd am) samples (some bs)
+      = .ok ⟨.pyfloat, -(((bs.zip samples).map (fun s => Real.log (clampProbs ε
+          (bornMixed (usOf defaultDict s.1) (Matrix.of fun x y => C10L.toC (rbmRho am ph x y)) s.2 / rbmZd am)))).sum)
+            / samples.length⟩ :=
+  C10_nll_formula_born_mixed ε defaultDict C10_defaultDict_Z _ _ _ (C10_rbm_diag am ph) samples bs hlen hne
+
+/-- … in particular for EVERY parameter setting whose phase network has `Σ_j |U_μ k j| < 2π` per auxiliary unit
+(C02_NZ_of_phase_weights_small): the guard is satisfiable on an open set of parameters containing the initialisation. -/
+theorem C10_fid_mixed_self_rbm_small (am ph : PRBM ℝ n h a) (hU : ∀ k, ∑ j, |ph.U k j| < 2 * Real.pi)
+    (eig : List (C ℝ))
+    (heig : ((eig.map C10L.toC : List ℂ) : Multiset ℂ)
+      = (matC (2 ^ n) (fidProd (2 ^ n)
+          (fun i j => ((rbmRhoIdx am ph i j).1 / rbmZd am, (rbmRhoIdx am ph i j).2 / rbmZd am))
+          (rbmRhoIdx am ph) (rbmZd am))).charpoly.roots) :
+    fidelityMixed eig = 1 :=
+  C10_fid_mixed_self_rbm am ph (C02.C02_NZ_of_phase_weights_small am ph hU) eig heig
+
+end rbm2
+
+/-! ### the `space=` argument: a permuted enumeration with the correspondingly permuted target -/
+
+/-- a vector over the first `N` positions re-indexed by a permutation of the positions (`v[perm]`) -/
+def reidx {β : Type} (N : ℕ) (π : Equiv.Perm (Fin N)) (v : ℕ → β) : ℕ → β :=
+  fun k => if hk : k < N then v (π ⟨k, hk⟩).val else v k
+
+theorem reidx_val {β : Type} (N : ℕ) (π : Equiv.Perm (Fin N)) (v : ℕ → β) (k : Fin N) :
+    reidx N π v k.val = v (π k).val := by
+  simp [reidx, k.isLt]
+
+/-- **`fidelity(nn_state, target[:, perm], space=space[perm])`**: evaluating the state on ANY re-ordering of the basis
+elements and giving the target's coefficients in that same order does not change the fidelity (`Z` is what the caller's
+`normalization(space)` returned). -/
+theorem C10_fid_space_perm (N : ℕ) (π : Equiv.Perm (Fin N)) (t ψ : ℕ → C ℝ) (Z : ℝ) :
+    fidelityPure N (reidx N π t) (reidx N π ψ) Z = fidelityPure N t ψ Z := by
+  unfold fidelityPure
+  rw [absSq_eq, absSq_eq, innerProd_eq, innerProd_eq]
+  congr 1
+  simp only [reidx_val]
+  exact Equiv.sum_comp π (fun k : Fin N => (starRingEnd ℂ) (C10L.toC (t k.val))
+    * C10L.toC ((ψ k.val).1 / Transc.sqrt Z, (ψ k.val).2 / Transc.sqrt Z))
+
+/-- **`KL(nn_state, target[:, perm], space=space[perm])`, `bases=None`**: `_single_basis_KL` of two probability vectors
+listed in the same (arbitrary) order of the basis elements. -/
+theorem C10_kl_space_perm (ε : ℝ) (N : ℕ) (π : Equiv.Perm (Fin N)) (t p : ℕ → ℝ) :
+    singleBasisKL ε N (reidx N π t) (reidx N π p) = singleBasisKL ε N t p := by
+  unfold singleBasisKL
+  simp only [sumFin_eq, reidx_val]
+  rw [Equiv.sum_comp π (fun k : Fin N => t k.val * probsToLogits ε (t k.val)),
+    Equiv.sum_comp π (fun k : Fin N => t k.val * probsToLogits ε (p k.val))]
+
+end compose
 
 end C10
 end QV.Props
